@@ -15,7 +15,8 @@ namespace PonyVerif.Bytecode
 
 /-! ## Values and interpretations -/
 
-inductive Val | bool (b : Bool) | none | obj (n : Nat)
+/-- `lit n t` : the constant number `n` (an int, str, … literal) whose truth value `t` is known (CPython folds tests on it at compile time) -/
+inductive Val | bool (b : Bool) | none | obj (n : Nat) | lit (n : Nat) (t : Bool)
   deriving DecidableEq, Repr, Inhabited
 
 /-- Nothing is assumed about atoms, operators or the truth of objects. -/
@@ -29,6 +30,7 @@ def Interp.truth (I : Interp) : Val → Bool
   | .bool b => b
   | .none => false
   | .obj n => I.truthObj n
+  | .lit _ t => t
 
 def Val.isNone : Val → Bool
   | .none => true
@@ -47,13 +49,14 @@ inductive CmpOp | named (s : String) | isin (neg : Bool) | is (neg : Bool)
 
 /-! ## Symbolic terms, queries, decision trees -/
 
-inductive Term | atom (n : Nat) | bool (b : Bool) | none | app (f : String) (args : List Term)
+inductive Term | atom (n : Nat) | bool (b : Bool) | none | lit (n : Nat) (t : Bool) | app (f : String) (args : List Term)
   deriving Repr, Inhabited
 
 def Term.eval (I : Interp) : Term → Val
   | .atom n => I.atom n
   | .bool b => .bool b
   | .none => .none
+  | .lit n t => .lit n t
   | .app f args => I.op f (args.map (Term.eval I))
 
 mutual
@@ -61,6 +64,7 @@ def Term.beq : Term → Term → Bool
   | .atom n, .atom m => n == m
   | .bool a, .bool b => a == b
   | .none, .none => true
+  | .lit n t, .lit m u => n == m && t == u
   | .app f a, .app g b => f == g && Term.beqL a b
   | _, _ => false
 def Term.beqL : List Term → List Term → Bool
@@ -108,8 +112,10 @@ def Tree.size : Tree α → Nat
 def Q.static : Q → Option Bool
   | .truth (.bool b) => some b
   | .truth .none => some false
+  | .truth (.lit _ t) => some t
   | .isq .none .none => some true
   | .isq (.bool _) .none => some false
+  | .isq (.lit _ _) .none => some false
   | _ => none
 
 def lookup (facts : List (Q × Bool)) (q : Q) : Option Bool :=
@@ -165,6 +171,7 @@ def Tree.beq : Tree (Outcome Term) → Tree (Outcome Term) → Bool
 inductive Instr
   | load (a : Nat)                      -- LOAD_FAST / LOAD_GLOBAL / LOAD_DEREF / LOAD_NAME / LOAD_CONST <opaque constant>
   | loadBool (b : Bool) | loadNone      -- LOAD_CONST True / False / None
+  | loadLit (n : Nat) (t : Bool)        -- LOAD_CONST <int / str / … constant number n, truth value t>
   | copy (n : Nat) | swap (n : Nat) | popTop
   | unaryNot
   | op (name : String) (argc : Nat)     -- UNARY_NEGATIVE/INVERT, BINARY_OP, CALL (+KW_NAMES), LOAD_ATTR, BINARY_SUBSCR, BUILD_*, FORMAT_VALUE …
@@ -210,10 +217,11 @@ structure Dom (α : Type) where
   atom : Nat → α
   bool : Bool → α
   none : α
+  lit : Nat → Bool → α
   app : String → List α → α
 
-def domV (I : Interp) : Dom Val := ⟨I.atom, .bool, .none, I.op⟩
-def domT : Dom Term := ⟨.atom, .bool, .none, .app⟩
+def domV (I : Interp) : Dom Val := ⟨I.atom, .bool, .none, .lit, I.op⟩
+def domT : Dom Term := ⟨.atom, .bool, .none, .lit, .app⟩
 
 def isForIter : Instr → Bool
   | .forIter => true
@@ -238,6 +246,7 @@ def act (D : Dom α) (code : List Instr) (s : St α) : Act α :=
     | .load a => push (D.atom a) s.stack
     | .loadBool b => push (D.bool b) s.stack
     | .loadNone => push D.none s.stack
+    | .loadLit n t => push (D.lit n t) s.stack
     | .copy n =>
       if n = 0 then stuck else
       match s.stack[n - 1]? with
@@ -337,7 +346,7 @@ def symRun (code : List Instr) : Tree (Outcome Term) := sexec code (code.length 
 
 mutual
 inductive Expr
-  | atom (n : Nat) | bool (b : Bool) | none
+  | atom (n : Nat) | bool (b : Bool) | none | lit (n : Nat) (t : Bool)
   | not (e : Expr)
   | boolop (isOr : Bool) (first : Expr) (rest : Args)   -- BoolOp(And|Or, [first, *rest])
   | ife (c t f : Expr)                                   -- IfExp
@@ -358,6 +367,7 @@ def Expr.eval (I : Interp) : Expr → Val
   | .atom n => I.atom n
   | .bool b => .bool b
   | .none => .none
+  | .lit n t => .lit n t
   | .not e => .bool (!I.truth (e.eval I))
   | .boolop isOr a r => Args.evalBool I isOr (a.eval I) r
   | .ife c t f => if I.truth (c.eval I) then t.eval I else f.eval I
@@ -388,6 +398,7 @@ def Expr.sym : Expr → Tree Term
   | .atom n => .leaf (.atom n)
   | .bool b => .leaf (.bool b)
   | .none => .leaf .none
+  | .lit n t => .leaf (.lit n t)
   | .not e => e.sym.bind fun t => .test (.truth t) (.leaf (.bool false)) (.leaf (.bool true))
   | .boolop isOr a r => a.sym.bind fun t => Args.symBool isOr t r
   | .ife c t f => c.sym.bind fun x => .test (.truth x) t.sym f.sym
